@@ -388,3 +388,28 @@ async fn duplicate_input_inside_a_transaction_is_refused() {
         }
     }
 }
+
+/// C01 / C02: the type field is chosen by the sender — typing a transaction as BlockStake must not exempt it from the
+/// sender's signature, the ownership of the inputs and the rule that it pays out no more than it consumes
+#[tokio::test]
+#[serial_test::serial]
+async fn staking_typed_transaction_gets_no_exemption() {
+    use crate::core::consensus::wallet::Wallet;
+    let (victim_pk, _victim_sk) = crate::core::util::crypto::generate_keys();
+    let (attacker_pk, attacker_sk) = crate::core::util::crypto::generate_keys();
+    let wallet_lock = std::sync::Arc::new(tokio::sync::RwLock::new(Wallet::new(attacker_sk, attacker_pk)));
+    let mut blockchain = Blockchain::new(wallet_lock, 1_000, 0, 60);
+    for payout in [400u64, 500, 1_000_000] {
+        let mut tx = Transaction::default();
+        tx.transaction_type = TransactionType::BlockStake;
+        let mut input = Slip::default(); input.public_key = victim_pk; input.amount = 500; input.block_id = 3; input.tx_ordinal = payout % 97; input.slip_index = 0;
+        tx.add_from_slip(input);
+        let mut o = Slip::default(); o.public_key = attacker_pk; o.amount = payout; tx.add_to_slip(o);
+        tx.sign(&attacker_sk);                  // not the owner of the input
+        tx.generate(&attacker_pk, 0, 8);
+        blockchain.utxoset.insert(tx.from[0].utxoset_key, true);
+        if tx.validate(&blockchain.utxoset, &blockchain, true) {
+            witness(format!("a BlockStake-typed transaction that spends somebody else's unspent 500-nolan output (signed by a key that does not own it) and pays {} to the signer is accepted by Transaction::validate", payout));
+        }
+    }
+}
